@@ -8,8 +8,8 @@ from vtlengine.DataTypes import (
     Boolean,
     ScalarType,
     String,
+    binary_implicit_promotion,
     check_unary_implicit_promotion,
-    unary_implicit_promotion,
 )
 from vtlengine.Exceptions import SemanticError
 from vtlengine.Model import Component, DataComponent, Dataset, Role, Scalar
@@ -232,10 +232,12 @@ class Unpivot(Operator):
         for comp in dataset.get_measures():
             if base_type is None:
                 base_type = comp.data_type
+                final_type = base_type
             else:
                 if check_unary_implicit_promotion(base_type, comp.data_type) is None:
                     raise ValueError("All measures must have the same data type on unpivot clause")
-            final_type = unary_implicit_promotion(base_type, comp.data_type)
+                # the result measure must hold every unpivoted value: Integer and Number give Number
+                final_type = binary_implicit_promotion(final_type, comp.data_type)
 
         result_dataset.add_component(
             Component(name=measure, data_type=final_type, role=Role.MEASURE, nullable=True)
